@@ -163,6 +163,7 @@ type worker struct {
 	curFn  *ssa.Function
 	rngst  uint64
 	held   map[*value]bool // mutexes currently held
+	heldBy map[*value]*gor
 	guards []guardRec
 	fcov   map[*ssa.Function]map[ssa.Instruction]bool
 	stubs  map[string]int
@@ -300,7 +301,7 @@ func (ex *explorer) runWorker(id int, fn *ssa.Function) {
 				ex.cond.Broadcast()
 				return
 			}
-			w = &worker{ex: ex, s: s, fcov: map[*ssa.Function]map[ssa.Instruction]bool{}, stubs: map[string]int{}, sites: map[string]int{}, sideInit: map[*value]*omap{}, side: map[*value]*omap{}, held: map[*value]bool{}}
+			w = &worker{ex: ex, s: s, fcov: map[*ssa.Function]map[ssa.Instruction]bool{}, stubs: map[string]int{}, sites: map[string]int{}, sideInit: map[*value]*omap{}, side: map[*value]*omap{}, held: map[*value]bool{}, heldBy: map[*value]*gor{}}
 			s.aux = func() ([]*Term, []*Term) { return w.auxBV, w.auxStr }
 			w.i = newInterpreter(ex.cfg.Prog, w)
 			if msg := w.i.runInits(ex.cfg); msg != "" {
@@ -384,6 +385,7 @@ func (w *worker) runPath(fn *ssa.Function, it *workItem) {
 	w.pcN = 0
 	w.memo = map[*Term]uint64{}
 	w.held = map[*value]bool{}
+	w.heldBy = map[*value]*gor{}
 	w.guards = nil
 	w.strFacts = nil
 	w.side = map[*value]*omap{}
@@ -457,6 +459,7 @@ func (w *worker) runPath(fn *ssa.Function, it *workItem) {
 		}()
 		call(w.i, nil, token.NoPos, fn, nil)
 	}()
+	w.i.reapGoroutines()
 	w.i.rollback()
 
 	ex := w.ex
